@@ -526,6 +526,71 @@ def sftp_attrs_bytes(version: int, fi: int, tail: bytes) -> bool:
     return True
 
 
+def sftp_copy_data(flen: int, ro: int, length: int, wo: int, same: bool) -> bool:
+    flen, ro, length, wo, same = conc(flen, 0, 5), conc(ro, 0, 5), conc(length, 0, 5), conc(wo, 0, 6), cb(same)
+    with notrace():      # arguments are concrete from here: the handler runs natively on each solver-chosen combination
+        return _sftp_copy_data(flen, ro, length, wo, same)
+
+
+def _sftp_copy_data(flen, ro, length, wo, same):
+    """SFTP server "copy-data" extension with arbitrary offsets/length, between
+    two handles or within one: the request finishes within a number of block
+    reads proportional to the file (never feeding on its own output), and for
+    distinct files the destination range equals the source range."""
+    from asyncssh import sftp as S
+    from uuid import uuid4
+    class File(bytearray):
+        def __bool__(self):              # an open file object is truthy whatever its length
+            return True
+
+    src_file = File(b'ABCDEF'[:flen])
+    dst_file = src_file if same else File(b'......')
+    reads = [0]
+
+    class Srv:
+        def read(self, f, offset, size):
+            reads[0] += 1
+            if reads[0] > 12:
+                raise Fuel()
+            return bytes(f[offset:offset + size])
+
+        def write(self, f, offset, data):
+            if offset > len(f):
+                f.extend(bytes(offset - len(f)))
+            f[offset:offset + len(data)] = data
+            return len(data)
+
+    h = S.SFTPServerHandler.__new__(S.SFTPServerHandler)
+    h._server = Srv()
+    h._logger = NullLogger()
+    h._file_handles = {b'h1': src_file, b'h2': dst_file}
+    before = bytes(src_file)
+    saved = S._COPY_DATA_BLOCK_SIZE
+    S._COPY_DATA_BLOCK_SIZE = 2
+    from asyncssh.packet import UInt64
+    pkt = SSHPacket(String(b'h1') + UInt64(ro) + UInt64(length) + String(b'h1' if same else b'h2') + UInt64(wo))
+    try:
+        coro = h._process_copy_data(pkt)
+        try:
+            coro.send(None)
+        except StopIteration:
+            res = 'ok'
+        except Fuel:
+            return False                # unbounded work: the copy reads what it has just written
+        except S.SFTPError:
+            res = 'err'
+        else:
+            return False
+    finally:
+        S._COPY_DATA_BLOCK_SIZE = saved
+    if same:
+        return True                     # (overlapping in-place copies: only termination is claimed)
+    if res != 'ok':
+        return False
+    n = len(before[ro:]) if length == 0 else len(before[ro:ro + length])
+    return bytes(dst_file[wo:wo + n]) == before[ro:ro + n] and bytes(src_file) == before
+
+
 def rsa_blob(e: int, n: int) -> bool:
     """A well-framed ssh-rsa public key blob with arbitrary small parameters is
     a key or KeyImportError - nothing else (one bad line must not abort a whole
@@ -633,6 +698,10 @@ OBLIGATIONS = [
        timeout=300, thorough_timeout=600,
        functions=['asyncssh.sftp.SFTPAttrs.decode'],
        bounds='20 attribute flag words (single bits, combinations, all ones) followed by arbitrary bytes of length {0,4} (thorough up to 9, flag word sharded), versions 4/6 (thorough 3..6)'),
+    Ob('sftp_copy_data', sftp_copy_data, sym=dict(flen=R(0, 5), ro=R(0, 5), length=R(0, 5), wo=R(0, 6), same=B),
+       shards=dict(same=[False, True]), timeout=200,
+       functions=['asyncssh.sftp.SFTPServerHandler._process_copy_data'],
+       bounds='file of 0..5 bytes, block size 2, read offset / length 0..5, write offset 0..6, same or distinct handles; work bound 12 block reads'),
     Ob('rsa_blob', rsa_blob, sym=dict(e=R(-2, 6), n=R(-2, 20)), timeout=120,
        functions=[PK.decode_ssh_public_key], bounds='ssh-rsa blob, e in -2..6, n in -2..20'),
     Ob('key_line', key_line, sym=dict(e=R(-2, 6), n=R(-2, 20)), timeout=120,
